@@ -492,28 +492,57 @@ func ruleTimeoutWidth(c *Ctx) {
 // json.Marshal and read with json.Unmarshal into the same map type; bytes are passed through.
 func ruleCodecPairs(c *Ctx) {
 	n := 0
-	for _, pp := range []string{pkgPromise, pkgSchedule} {
-		pk := c.P.Pkg(pp)
-		fd := funcDecl(pk, "", "bytesToMap")
-		if fd == nil {
-			c.und("codec/"+pk.Name, 0, "bytesToMap not found in "+pp)
+	for _, t := range [][3]string{{pkgPromise, "PromiseRecord", "Promise"}, {pkgSchedule, "ScheduleRecord", "Schedule"}} {
+		pk := c.P.Pkg(t[0])
+		rec := funcDecl(pk, t[1], t[2])
+		key := "codec/" + pk.Name + ".bytesToMap"
+		if rec == nil {
+			c.und("codec/"+pk.Name, 0, t[1]+"."+t[2]+" not found in "+t[0])
 			continue
 		}
+		// the decoder of the stored map columns: whatever function the record decoder hands a []byte
+		// column to and gets a map[string]string (and an error) from — wherever it lives
+		decoders := map[*types.Func]bool{}
+		for _, call := range callsInDeep(rec.Body) {
+			fn, ok := calleeOf(pk.TypesInfo, call).(*types.Func)
+			if !ok || fn.Pkg() == nil || !strings.HasPrefix(fn.Pkg().Path(), modPath) {
+				continue
+			}
+			sig := fn.Type().(*types.Signature)
+			if sig.Results().Len() == 2 && isErrorType(sig.Results().At(1).Type()) {
+				if m, ok := sig.Results().At(0).Type().Underlying().(*types.Map); ok && m.Key().String() == "string" && m.Elem().String() == "string" {
+					decoders[fn] = true
+				}
+			}
+		}
+		if len(decoders) == 0 {
+			// decoded in place (a loop over the columns): the record decoder itself is the codec
+			decoders[pk.TypesInfo.Defs[rec.Name].(*types.Func)] = true
+		}
 		n++
-		okJSON := false
-		for _, call := range callsIn(fd.Body) {
-			if calleeName(pk.TypesInfo, call) == "json.Unmarshal" {
-				okJSON = true
+		okJSON, other := true, false
+		for fn := range decoders {
+			dpk := c.P.Pkg(fn.Pkg().Path())
+			fd := funcDeclOf(dpk, fn)
+			if fd == nil || fd.Body == nil {
+				okJSON = false
+				continue
+			}
+			has := false
+			for _, call := range callsInDeep(fd.Body) {
+				cn := calleeName(dpk.TypesInfo, call)
+				if cn == "json.Unmarshal" {
+					has = true
+				}
+				if normaliserFuncs[cn] {
+					other = true
+				}
+			}
+			if !has {
+				okJSON = false
 			}
 		}
-		other := false
-		for _, call := range callsIn(fd.Body) {
-			cn := calleeName(pk.TypesInfo, call)
-			if normaliserFuncs[cn] {
-				other = true
-			}
-		}
-		c.check(okJSON && !other, "codec/"+pk.Name+".bytesToMap", fd.Pos(), "stored maps are decoded with plain json.Unmarshal (inverse of the json.Marshal that wrote them)", "bytesToMap is no longer the plain inverse of json.Marshal")
+		c.check(okJSON && !other, key, rec.Pos(), "stored maps are decoded with plain json.Unmarshal (inverse of the json.Marshal that wrote them)", "the decoder of the stored map columns is no longer the plain inverse of json.Marshal")
 	}
 	c.count("codec_pairs", n)
 	_ = sort.Strings
